@@ -126,6 +126,18 @@ CHECKS = {
         "The initial registry of a fresh manager is the model's baseline; fake plug-ins lower-case method names like the built-in ones.",
         "DESIGN.md §3 C19",
     ),
+    "C12": (
+        "model_checking",
+        "exhaustive enumeration of event histories against a reference model checked after every event; Hypothesis for multi-result events, resets and real optimizer runs replayed against their own event stream",
+        "All histories of length <=3 (quick) / <=4 and <=5 on a reduced alphabet (thorough) over 22 result kinds (objective NaN/1/2/2'/3 x feasible/"
+        "infeasible x tracked/foreign source, gradient result, result without functions) x {no transform, scaling, sign-flipping transform} x "
+        "tolerance {None, 0, 1e-10, 0.5}, built exactly like the steps build FINISHED_EVALUATION events, observed by a 'best' and a 'last' tracker; "
+        "after every event the held results must be what the reference model allows (optimizer-domain minimum over valid delivered results, most "
+        "recent feasible one). Hypothesis adds events with several results, external resets, and real SLSQP / Nelder-Mead / differential-evolution "
+        "runs (constraints, NaN results, maximization) whose BasicOptimizer.results must be the model's best of the recorded stream.",
+        "Results are compared by identity or value; NaN-objective results are unconstrained for 'last'; ties may resolve either way.",
+        "DESIGN.md §3 C12",
+    ),
 }
 
 NOT_YET = "check not built yet in this session (planned, see DESIGN.md §3)"
